@@ -200,6 +200,66 @@ func c07DataLaws(c *core.Ctx) {
 		c.Check(bad == "", rC07Data, ev.Name+":pairs", ev.Decl.Pos(), "fn:pair builds the pair of its arguments", bad)
 	}
 
+	// ---- arithmetic and string functions reach the right implementation, with the arguments in order ----
+	{
+		bad := ""
+		for _, t := range []struct {
+			sym  string
+			want int64
+		}{{"fn:plus", 9}, {"fn:minus", 5}, {"fn:mult", 14}, {"fn:div", 3}, {"fn:mod", 1}} {
+			arity := int64(-1)
+			if t.sym == "fn:mod" {
+				arity = 2
+			}
+			got, isErr, ok := apply(rC07Disp, t.sym, arity, num(7), num(2))
+			if !ok {
+				return
+			}
+			if eq, _ := same(rC07Disp, got, nu(t.want)); (isErr || !eq) && bad == "" {
+				bad = fmt.Sprintf("%s(7, 2) = %s (error=%v), want %d", t.sym, show(got), isErr, t.want)
+			}
+		}
+		c.Check(bad == "", rC07Disp, ev.Name+":arithmetic", ev.Decl.Pos(), "fn:plus, fn:minus, fn:mult, fn:div and fn:mod of (7, 2) are 9, 5, 14, 3 and 1", bad)
+		bad, n = "", 0
+		texts := []string{"", "a", "aXbXc", "XX", "XXX"}
+		olds := []string{"", "X", "XX", "b"}
+		news := []string{"", "yy", "X"}
+		for _, s0 := range texts {
+			for _, o := range olds {
+				for _, nw := range news {
+					for _, cnt := range []int64{-1, 0, 1, 2} {
+						got, isErr, ok := apply(rC07Str, "fn:string:replace", 4, bld(st(s0)), bld(st(o)), bld(st(nw)), num(cnt))
+						if !ok {
+							return
+						}
+						n++
+						want := strings.Replace(s0, o, nw, int(cnt))
+						if eq, _ := same(rC07Str, got, st(want)); (isErr || !eq) && bad == "" {
+							bad = fmt.Sprintf("fn:string:replace(%q, %q, %q, %d) = %s (error=%v), plain strings.Replace gives %q", s0, o, nw, cnt, show(got), isErr, want)
+						}
+					}
+				}
+			}
+		}
+		c.Check(bad == "", rC07Str, ev.Name+":StringReplace", ev.Decl.Pos(), fmt.Sprintf("%d argument combinations agree with strings.Replace", n), bad)
+		bad = ""
+		for _, parts := range [][]string{{}, {"a"}, {"a", "b"}, {"b", "a"}, {"a", "", "b"}, {"x\"y", "z"}} {
+			var as []ordabs.Value
+			for _, p := range parts {
+				as = append(as, bld(st(p)))
+			}
+			got, isErr, ok := apply(rC07Str, "fn:string:concat", -1, as...)
+			if !ok {
+				return
+			}
+			want := strings.Join(parts, "")
+			if eq, _ := same(rC07Str, got, st(want)); (isErr || !eq) && bad == "" {
+				bad = fmt.Sprintf("fn:string:concat%q = %s (error=%v), want %q", parts, show(got), isErr, want)
+			}
+		}
+		c.Check(bad == "", rC07Str, ev.Name+":StringConcatenate", ev.Decl.Pos(), "the texts are joined in argument order", bad)
+	}
+
 	// ---- matching predicates ----
 	V := func(name string) ordabs.Value {
 		return &ordabs.Rec{Fields: map[string]ordabs.Value{"Symbol": name}, T: "ast.Variable"}
